@@ -198,6 +198,13 @@ func (se *ScriptEnv) transform(req, reply []byte) ([]byte, error) {
 			return sess.Wrap([]byte{0x81, 0x1c, 0x63, 0x20, 0x04}, refbmc.WrapOpts{}), nil
 		}
 		return []byte{6, 0, 0xff, 7, 6}, nil
+	case "garbage:nomsg":
+		// a datagram that parses as RMCP+ but carries no IPMI message: a late Open Session
+		// Response, or an IPMI payload of length zero
+		if st.attempt%2 == 0 {
+			return refbmc.RMCP(refbmc.SessHdr(0x11, 0, 0, []byte{0, 1, 0, 0, 0xa4, 0xa3, 0xa2, 0xa0})), nil
+		}
+		return refbmc.RMCP(refbmc.SessHdr(0, 0, 0, nil)), nil
 	case "garbage:reflect":
 		// the console's own request comes back (a reflector, or the other end issuing the same
 		// command): same NetFn pair and command, but a request, not a response
